@@ -36,7 +36,7 @@ ASSUMPTIONS = [
     "containment of a child in its parent is three-valued: deviation <= tolerance holds, > 2 x tolerance fails, in between is counted as undecided (both polygons went through buffer(+-tolerance) smoothing in the parser)",
     "lane-level successor/predecessor reciprocity is decided only where the map declares both directions (OpenDRIVE lane links may be one-sided; the parser transcribes them)",
     "an incoming lane whose connecting lane has no successor lane (the parser warns about the map) legitimately carries a dummy STRAIGHT maneuver outside intersection.maneuvers",
-    "tangency is decided only for points whose nearest centreline point is strictly inside one segment (0.02 < t < 0.98) and >= 1 mm closer than any other segment; roadDirection only for lanes of ordinary roads where exactly one lane and no intersection is within tolerance",
+    "tangency is decided only for points whose nearest centreline point is strictly inside one segment (0.02 < t < 0.98) and >= 1 mm closer than any other segment; roadDirection only for lanes of ordinary roads where exactly one lane, exactly one road and no intersection is within tolerance",
     "lookup completeness is undecided for elements between 0.995 x tolerance and tolerance (the real tolerant pass intersects a polygonal approximation of the disc)",
     "the canonical dump covers every attribute in the elements' and network's __dict__ except region caches, the R-tree and the weak back-reference to the network",
 ]
@@ -45,19 +45,27 @@ MIN_COUNTERS = {
         "networks_built": 20,
         "maps": 12,
         "cache_loads_compared": 12,
-        "cache_path_decisions": 50,
-        "inv_link": 20000,
-        "inv_lookup": 20000,
-        "inv_tangent": 2000,
-        "inv_containment": 2000,
-        "inv_coverage": 2000,
+        "cache_path_decisions": 150,
+        "cache_used_when_unchanged": 12,
+        "cache_decision_bytes-changed": 20,
+        "cache_decision_option-changed": 12,
+        "cache_decision_option-value-changed": 4,
+        "inv_link": 40000,
+        "inv_lookup": 80000,
+        "inv_tangent": 8000,
+        "inv_containment": 3000,
+        "inv_coverage": 8000,
         "networks_with_intersections": 5,
     },
     "thorough": {
         "networks_built": 100,
         "maps": 17,
         "cache_loads_compared": 17,
-        "cache_path_decisions": 80,
+        "cache_path_decisions": 300,
+        "cache_used_when_unchanged": 17,
+        "cache_decision_bytes-changed": 34,
+        "cache_decision_option-changed": 17,
+        "cache_decision_option-value-changed": 8,
         "inv_link": 500000,
         "inv_lookup": 300000,
         "inv_tangent": 20000,
